@@ -272,3 +272,10 @@ Definition dp_handle_timeout (m : dpm) (addr : Z) : res dpm := Ok m.
 Definition occupied (m : dpm) : list nat := occupied_from (dm_slots m) 0.
 Definition slot (m : dpm) (i : nat) : option periph :=
   match nth_error (dm_slots m) i with Some (Some p) => Some p | _ => None end.
+
+(* dp_master.get_mut(h).reset_address(a) (added after phase 1).  The handle keeps its index; the address it
+   carries is stale afterwards, handles in later events carry the new address.  The cycle state is not
+   touched: a reply that is still outstanding is handed to the reset peripheral if the address is unchanged
+   and trips the unreachable!() of receive_reply if it changed (known finding F22). *)
+Definition dp_reset_address (m : dpm) (h : handle) (a : Z) : res dpm :=
+  dp_update m h (fun p => p_reset_address p a).
